@@ -13,23 +13,14 @@ XS_KINDS = sorted(set(XS_NC + XS_CC))
 def excluded(kind, process, scheme, pto, heavyness, tmc):
     """Why a configuration is not generated for the relational properties (None = generated).
 
-    1. documented gaps of the package (cards.unsupported);
-    2. the open C16 finding "N3LO massive NC results are NaN" (shipped grids contain NaN): any
-       identity between NaN tensors is meaningless, the region is explored by C16 itself.
+    Only the documented gaps of the package (cards.unsupported): they are explicitly rejected by the code
+    and explored by C16; generating them elsewhere would only produce `rejected` cases.
     """
     if kind in XS_KINDS:  # cross sections inherit the limits of the structure functions they combine
         kind = "gL" if kind == "g5" else "F2"
     r = cards.unsupported(kind, process, pto, tmc, scheme)
     if r:
         return r
-    if (
-        pto >= 3
-        and scheme in ("FFNS", "FONLL-FFNS")
-        and process != "CC"
-        and heavyness != "light"
-        and kind in ("F2", "FL")
-    ):
-        return "N3LO massive NC (NaN grids, open C16 finding)"
     return None
 
 
